@@ -281,8 +281,18 @@ def doTsys (l : Line) : Option String := do
         some s!"ok br={br} m={sm3 m}"
   | _ => none
 
+/-- `axrot ax=… ang=c,s v=… sh=…` → `axis_rotation(axis, angle, v, axis_shift)` -/
+def doAxRot (l : Line) : Option String := do
+  let a ← v3? l "ax"
+  let v ← v3? l "v"
+  let sh ← v3? l "sh"
+  match l.rats? "ang" with
+  | some [c, s] => some s!"ok r={s3 (axisRotation a c s v sh)}"
+  | _ => none
+
 def handle (l : Line) : Option String :=
   match l.op with
+  | "axrot" => doAxRot l
   | "tsys" => doTsys l
   | "fromto" => doFromTo l
   | "pt" => doPt l
